@@ -281,6 +281,16 @@ pub fn run(ctx: &Ctx) -> (&'static str, &'static str) {
                 cases.push((48, m, dlen));
             }
         }
+        // long messages: lengths around every power of two up to 2^21 (chunked absorption, 16-/32-bit length arithmetic), and
+        // lengths that are not a multiple of 2^16 beyond it
+        for k in 9..=21usize {
+            for m in [(1usize << k) - 1, 1 << k, (1 << k) + 1] {
+                cases.push((32, m, 43));
+            }
+        }
+        for m in [100_000usize, 3 * 65536 + 5, 1_000_003] {
+            cases.push((129, m, 43));
+        }
         let rad = [cases.len() as u64, 4];
         ctx.sweep(
             "expand_message.every_length",
